@@ -167,6 +167,7 @@ class V3Spec:
         self.blocks = list(blocks)                # [(tag, payload bytes)]
         self.last_block_padded = last_block_padded
         self.trailing = trailing
+        self.chunk_slack = []                     # per chunk: bytes counted in the chunk length after its records
 
     def build(self):
         out = bytearray(V3_MAGIC)
@@ -190,10 +191,12 @@ class V3Spec:
             scan_from = len(out)
             out += self.chunk_fillers[ci] + TAG_EVENTS
             assert bytes(out).find(TAG_EVENTS, scan_from) == len(out) - 8, 'ambiguous events filler'
-            out += u(64 * len(chunk), 8) + b'\x00' * 8
+            slack = self.chunk_slack[ci] if ci < len(self.chunk_slack) else b''
+            out += u(64 * len(chunk) + len(slack), 8) + b'\x00' * 8
             for r in chunk:
                 record_offsets.append(len(out))
                 out += r
+            out += slack        # a chunk length that is not a whole number of records: fill bytes after the last record
             chunk_ends.append(len(out))
         self.events_end = len(out)
         for bi, (tag, payload) in enumerate(self.blocks):
